@@ -272,7 +272,23 @@ def shutdown(R, prog):
                    describe=lambda ev: 'a shutting-down thread\'s sleep always reports failure', min_sites=1, what='return')
 
 
+def shutdown_order(R, prog):
+    """K8: thread_shutdown() marks the thread BEFORE it wakes it: a thread woken first sees itself unmarked, goes back to an
+    unbounded sleep, and nothing wakes it again (the 10 ms bound of a marked thread is lost)."""
+    G = K.build(R, prog, 'photon::thread_shutdown')
+    mark = lambda ev: ev.kind == 'call' and (ev.callee() or '').endswith('::set_shutting_down')
+    wake = lambda ev: ev.kind == 'call' and (ev.callee() or '').split('::')[-1] in ('thread_interrupt', 'prelocked_thread_interrupt')
+    res = an.run(G, [an.SeenTracker([('marked', mark)])])
+    th = K.param(G.root, 0)
+    K.check_at(R, P + '.K8', G, res, wake, require=lambda st, ev: 'S:marked' in st and ev.arg_path(0) == th,
+               key_fn=lambda ev: P + '.K8:photon::thread_shutdown:mark-before-wake',
+               describe=lambda ev: 'the thread is interrupted (EPERM) only after its shutting-down mark was set', min_sites=1, what='thread_interrupt')
+    K.check_at(R, P + '.K7', G, res, lambda ev: ev.kind == 'return' and ev.depth == 0 and ev.f.const(ev.e['sub']) == 0, require=lambda st, ev: 'S:marked' in st,
+               key_fn=lambda ev: P + '.K7:photon::thread_shutdown:success-has-marked', describe=lambda ev: 'success only after the mark was set', min_sites=1)
+
+
 def run(R, prog, tier):
+    R.guard(shutdown_order, R, prog)
     R.guard(sleepq, R, prog)
     R.guard(consumption, R, prog)
     R.guard(interrupt, R, prog)
